@@ -57,6 +57,64 @@ func isSortCall(c *ssa.CallCommon) bool {
 	return false
 }
 
+// totalOrderSort: the sort call orders by a total order on the elements, so its result does not
+// depend on the initial order: sort.Strings/Ints/Float64s, or sort.Slice* with a comparator that
+// is a plain < / > between elements i and j of the sorted slice (of a basic element type).
+func totalOrderSort(c *ssa.CallCommon) (bool, string) {
+	f := c.StaticCallee()
+	if f == nil {
+		return false, "unresolved sort call"
+	}
+	switch f.Name() {
+	case "Strings", "Ints", "Float64s":
+		return true, ""
+	case "Slice", "SliceStable":
+		var less *ssa.Function
+		switch x := c.Args[1].(type) {
+		case *ssa.MakeClosure:
+			less = x.Fn.(*ssa.Function)
+		case *ssa.Function:
+			less = x
+		}
+		if less == nil || len(less.Blocks) != 1 {
+			return false, "comparator is not a single-expression function literal"
+		}
+		r, ok := less.Blocks[0].Instrs[len(less.Blocks[0].Instrs)-1].(*ssa.Return)
+		if !ok || len(r.Results) != 1 {
+			return false, "comparator shape not recognised"
+		}
+		bo, ok := r.Results[0].(*ssa.BinOp)
+		if !ok || (bo.Op != token.LSS && bo.Op != token.GTR) {
+			return false, "comparator is not a plain < or > on the elements"
+		}
+		elem := func(v ssa.Value) int {
+			u, ok := v.(*ssa.UnOp)
+			if !ok {
+				return -1
+			}
+			ia, ok := u.X.(*ssa.IndexAddr)
+			if !ok {
+				return -1
+			}
+			if _, isBasic := u.Type().Underlying().(*types.Basic); !isBasic {
+				return -1
+			}
+			for k, p := range less.Params {
+				if ia.Index == ssa.Value(p) {
+					return k
+				}
+			}
+			return -1
+		}
+		x, y := elem(bo.X), elem(bo.Y)
+		if x < 0 || y < 0 || x == y {
+			return false, "comparator does not compare element i with element j directly"
+		}
+		return true, ""
+	}
+	return false, "sorted with " + f.String() + ", whose ordering the checker cannot show to be total"
+}
+
 func stripIface(v ssa.Value) ssa.Value {
 	for {
 		switch x := v.(type) {
@@ -182,6 +240,7 @@ func isInteger(t types.Type) bool {
 func (ml *mapLoop) sortedBeforeUse(v ssa.Value) (bool, string) {
 	var sorts []ssa.Instruction
 	var uses []ssa.Instruction
+	notTotal := ""
 	var walk func(x ssa.Value, seen map[ssa.Value]bool)
 	walk = func(x ssa.Value, seen map[ssa.Value]bool) {
 		if seen[x] {
@@ -202,6 +261,9 @@ func (ml *mapLoop) sortedBeforeUse(v ssa.Value) (bool, string) {
 				continue
 			case *ssa.Call:
 				if isSortCall(&r.Call) && len(r.Call.Args) > 0 && stripIface(r.Call.Args[0]) == stripIface(x) {
+					if ok, why := totalOrderSort(&r.Call); !ok {
+						notTotal = why
+					}
 					sorts = append(sorts, r)
 					continue
 				}
@@ -210,6 +272,9 @@ func (ml *mapLoop) sortedBeforeUse(v ssa.Value) (bool, string) {
 		}
 	}
 	walk(v, map[ssa.Value]bool{})
+	if notTotal != "" {
+		return false, "its sort call: " + notTotal
+	}
 	for _, u := range uses {
 		ok := false
 		for _, s := range sorts {
@@ -296,6 +361,16 @@ func checkMapLoop(p *Prog, l *Ledger, rule string, ml *mapLoop) {
 				}
 				if _, isConst := x.Val.(*ssa.Const); isConst {
 					continue // idempotent
+				}
+				// a variable held in memory (captured by a closure) used as an append accumulator
+				if al, ok := x.Addr.(*ssa.Alloc); ok {
+					if ok2, why := ml.memAccumulatorSorted(al, x); ok2 {
+						accs = append(accs, al.Comment+":append+sort(mem)")
+						continue
+					} else if why != "" {
+						problems = append(problems, fmt.Sprintf("accumulator %q (%s) is carried around the range over %s", al.Comment, why, owner))
+						continue
+					}
 				}
 				loc, _ := locOf(x.Addr)
 				problems = append(problems, fmt.Sprintf("store to %s inside the range over %s at %s survives the iteration", loc, owner, p.Pos(x.Pos())))
@@ -437,4 +512,67 @@ func ruleMapOrder(p *Prog, l *Ledger, tier string) {
 		}
 	}
 	l.Min(rule, n, 3)
+}
+
+// memAccumulatorSorted: st is  v = append(v, …)  on the memory variable al, and every read of al
+// after the loop is a total-order sort of it or dominated by one. why == "" means "not this idiom".
+func (ml *mapLoop) memAccumulatorSorted(al *ssa.Alloc, st *ssa.Store) (bool, string) {
+	c, ok := st.Val.(*ssa.Call)
+	if !ok {
+		return false, ""
+	}
+	if b, ok := c.Call.Value.(*ssa.Builtin); !ok || b.Name() != "append" {
+		return false, ""
+	}
+	if u, ok := c.Call.Args[0].(*ssa.UnOp); !ok || u.X != ssa.Value(al) {
+		return false, ""
+	}
+	var sorts []ssa.Instruction
+	var reads []ssa.Instruction
+	for _, ref := range *al.Referrers() {
+		u, ok := ref.(*ssa.UnOp)
+		if !ok || ml.blocks[u.Block()] {
+			continue
+		}
+		isSortArg := false
+		for _, r2 := range *u.Referrers() {
+			var call *ssa.Call
+			switch y := r2.(type) {
+			case *ssa.Call:
+				call = y
+			case *ssa.MakeInterface:
+				for _, r3 := range *y.Referrers() {
+					if cc, ok := r3.(*ssa.Call); ok {
+						call = cc
+					}
+				}
+			}
+			if call != nil && isSortCall(&call.Call) && stripIface(call.Call.Args[0]) == ssa.Value(u) {
+				if ok, why := totalOrderSort(&call.Call); !ok {
+					return false, "append, then " + why
+				}
+				sorts = append(sorts, call)
+				isSortArg = true
+			}
+		}
+		if !isSortArg {
+			reads = append(reads, u)
+		}
+	}
+	for _, r := range reads {
+		// reads before the loop do not matter
+		if !instrReaches(st, r) {
+			continue
+		}
+		ok := false
+		for _, s := range sorts {
+			if instrDominates(s, r) {
+				ok = true
+			}
+		}
+		if !ok {
+			return false, "append, read at " + ml.fn.Prog.Fset.Position(r.Pos()).String() + " before being sorted"
+		}
+	}
+	return len(sorts) > 0, "append, never sorted"
 }
